@@ -40,6 +40,7 @@ def setup(ctx):
     ctx.require("monitor", "at_limit_streams", 8)
     ctx.require("monitor", "l2_late_client_bytes_while_answering", 10)
     ctx.require("monitor", "l2_client_half_close", 20)
+    ctx.require("monitor", "l2_slow_handler_responses", 10)
     ctx.require("monitor", "static_files_with_special_text", 8)
     ctx.require("backend", "pyopenssl", 10)
     ctx.require("backend", "stdlib", 10)
@@ -162,7 +163,7 @@ def run_l2(ctx):
                     body = text_body(n, rng)
                     exp_body = body.encode("utf-8")
                     meta = "text/gemini"
-                mode = ("sync", "async", "sync+client-half-close", "async-slow+late-client-bytes")[idx % 4]
+                mode = ("sync", "async", "sync+client-half-close", "async-slow+late-client-bytes", "async-45s")[(idx + idx // 5) % 5]
 
                 def handler(req, body=body, meta=meta, mode=mode):
                     r = GeminiResponse(status=20, meta=meta, body=body)
@@ -174,6 +175,11 @@ def run_l2(ctx):
                             # the response takes a virtual second; meanwhile the client sends more (a blank line,
                             # a second request line): the answer to THE request must still arrive unaltered
                             await asyncio.sleep(1.0)
+                        elif mode == "async-45s":
+                            # a handler (a relay to a slow upstream, say) that needs longer than the server's time
+                            # limit for RECEIVING a request: what it returns is still what the client gets
+                            await asyncio.sleep(45.0)
+                            ctx.count("monitor", "l2_slow_handler_responses")
                         return r
 
                     return co()
